@@ -1236,6 +1236,7 @@ func (w *l1World) execBlock(bc blockCtx, txs []pendingTx, stub []node.StubOp, cr
 	}
 	w.sideTraffic("before-commit", raw)
 	w.n.Commit()
+	w.r.Witness(w.n.App.LastCommitID().Hash)
 	if crash == "after-commit" {
 		w.restart(crash)
 	}
